@@ -434,8 +434,7 @@ func loadBuiltinFromJSON() error {
 				continue
 			}
 
-			base.ClassInheritanceMap[classNode] =
-				append(base.ClassInheritanceMap[classNode], parentNode)
+			base.AddParentNode(classNode, parentNode)
 		}
 
 		d.SetDefinedClass()
